@@ -134,9 +134,15 @@ func (cs *ContractSet) loadFile(path string) error {
 	sc.Buffer(make([]byte, 1<<20), 1<<20)
 	var lines []rawLine
 	n := 0
+	pkgPrefix := ""
 	for sc.Scan() {
 		n++
 		t := strings.TrimSpace(sc.Text())
+		if strings.HasPrefix(t, "package ") {
+			if pn := strings.TrimSpace(strings.TrimPrefix(t, "package ")); pn != "decimal" {
+				pkgPrefix = pn + ":"
+			}
+		}
 		if !strings.HasPrefix(t, "//@") {
 			continue
 		}
@@ -192,6 +198,9 @@ func (cs *ContractSet) loadFile(path string) error {
 				key = m[2]
 				if m[1] != "" {
 					key = m[1] + "." + m[2]
+				}
+				if !strings.HasPrefix(key, "$") {
+					key = pkgPrefix + key
 				}
 			}
 			if _, dup := cs.Funcs[key]; dup {
